@@ -103,6 +103,11 @@ pub fn run(o: &Opts) -> serde_json::Value {
                     }
                     cfg_last(&mut steps, c);
                 }
+                "raw" if rng.gen_bool(0.15) && !steps.is_empty() && !matches!(input.first(), Some(0xEF | 0xFE | 0xFF | 0x00)) => {
+                    let n = [1usize, 2, 5, 17, 4096][rng.gen_range(0..5)];
+                    steps.push(Step::Stream { n, buf: rng.gen_bool(0.5) });
+                    continue;
+                }
                 "skips" if rng.gen_bool(0.12) => {
                     steps.push(if rng.gen_bool(0.5) { Step::ReadToEnd } else { Step::ReadText });
                     continue;
@@ -120,10 +125,22 @@ pub fn run(o: &Opts) -> serde_json::Value {
                 }
             }
         }
+        if script == "bom" {
+            // C14: a UTF-8 document with a byte-order mark, delivered in arbitrary pieces (also a first piece shorter than the mark)
+            let mut v = vec![0xEF, 0xBB, 0xBF];
+            while input.starts_with(&[0xEF, 0xBB, 0xBF]) {
+                input.drain(..3);
+            }
+            v.extend_from_slice(&input);
+            input = v;
+        }
         let n = input.len();
         let bom_like = n >= 1 && matches!(input[0], 0xEF | 0xFE | 0xFF | 0x00 | b'<');
         let mut cuts = gen::random_cuts(&mut rng, n);
-        if bom_like && !cuts.is_empty() {
+        if script == "bom" && rng.gen_bool(0.5) {
+            cuts.insert(0, rng.gen_range(1..4));
+        }
+        if bom_like && !cuts.is_empty() && script != "bom" {
             // the encoding/BOM sniff may look only at the first piece (C02's exception)
             let mut first = 0;
             let mut j = 0;
@@ -158,16 +175,30 @@ pub fn run(o: &Opts) -> serde_json::Value {
                 _ => if std::str::from_utf8(&input).is_ok() { Src::Str } else { Src::Slice },
             }
         };
-        let src_name = match &src { Src::Slice => "slice", Src::Str => "str", Src::Buffered(_) => "buffered", Src::Async(_) => "async" };
+        // the namespace-aware reader returns the same events; (inputs that may contain namespace declarations are C05's subject)
+        let src = if o.sources != "slice" && script != "raw" && script != "faults" && script != "bom" && rng.gen_bool(0.15) && !input.windows(5).any(|w| w == b"xmlns") {
+            match src {
+                Src::Buffered(p) | Src::Async(p) => Src::NsBuffered(Plan { pendings: vec![], ..p }),
+                _ => Src::Ns,
+            }
+        } else {
+            src
+        };
+        let src_name = match &src { Src::Slice => "slice", Src::Str => "str", Src::Buffered(_) => "buffered", Src::Async(_) => "async", Src::Ns => "ns", Src::NsBuffered(_) => "ns-buffered" };
         let r = run_reader(&input, &cfg, &steps, &src);
         // ---- write the trace
-        writeln!(f, "{}", json!({"t": "Reset", "in": input, "cfg": cfg, "enc": if o.enc {1} else {0}, "src": src_name, "run": i})).unwrap();
+        let first = match &src {
+            Src::Buffered(p) | Src::Async(p) | Src::NsBuffered(p) => p.cuts.first().copied().unwrap_or(input.len()).max(1),
+            _ => input.len() + 4,
+        };
+        writeln!(f, "{}", json!({"t": "Reset", "in": input, "cfg": cfg, "enc": if o.enc {1} else {0}, "src": src_name, "run": i, "first": first})).unwrap();
         events += 1;
         let mut eofs = 0;
         let mut any_markup = false;
         for (si, so) in r.obs.iter().enumerate() {
             let eff = match (&steps[si], so.did.as_str()) {
                 (Step::SetCfg { .. }, _) => steps[si].clone(),
+                (Step::Stream { .. }, "raw") => steps[si].clone(),
                 (_, "rte") => steps[si].clone(),
                 _ => Step::Read,
             };
@@ -195,6 +226,9 @@ pub fn run(o: &Opts) -> serde_json::Value {
                     if so.o.k == "Eof" {
                         eofs += 1;
                     }
+                }
+                Step::Stream { n, .. } => {
+                    writeln!(f, "{}", json!({"t": "Raw", "k": so.o.k, "n": n, "b": so.o.b, "p": so.o.p, "q": so.o.q})).unwrap();
                 }
                 Step::ReadToEnd | Step::ReadText => {
                     let txt = matches!(eff, Step::ReadText) && matches!(src, Src::Slice | Src::Str);
